@@ -3,7 +3,7 @@ PROP = dict(
     gens=[],
     lake=['IcyVerif.Props.C09'],
     ns='IcyVerif.C09',
-    theorems=['cursor_in_screen_wrapped', 'cursor_in_screen', 'cursor_in_screen_step', 'screen_not_below_buffer', 'margins_inside_screen'],
+    theorems=['cursor_in_screen_bytes', 'fixed_grid', 'cursor_in_screen_wrapped', 'cursor_in_screen', 'cursor_in_screen_step', 'screen_not_below_buffer', 'margins_inside_screen'],
     harness='c09',
     harness_timeout=1500,
     design='DESIGN.md §4 C09, §3.2 TermGeo',
